@@ -138,6 +138,23 @@ type world struct {
 	curID   string
 	ownRec  *appencryption.DataRowRecord
 	ctx     context.Context
+	// safety valve: when foreign records decrypt en masse (a broken guard) every pair costs a full
+	// key-chain walk; the generators stop after this many such outcomes — each one already is a
+	// failing input for the monitor.
+	foreignOK int
+}
+
+const foreignOKLimit = 50000
+
+func (w *world) tooMany() bool {
+	if w.foreignOK > foreignOKLimit {
+		if w.foreignOK < 1<<40 {
+			fmt.Fprintf(out, "# generation stopped: %d foreign records were decrypted without error\n", w.foreignOK)
+			w.foreignOK = 1 << 40
+		}
+		return true
+	}
+	return false
 }
 
 func newWorld() *world {
@@ -257,6 +274,9 @@ func (w *world) decrypt(drr appencryption.DataRowRecord, producer string) (res s
 		}
 	}()
 	b, err := w.cur.Decrypt(w.ctx, drr)
+	if err == nil && producer != w.curID {
+		w.foreignOK++
+	}
 	switch {
 	case err != nil:
 		return "err"
@@ -416,6 +436,9 @@ func (w *world) fullCase(svc, prod, sfx, cache string, ids []string, warm, compa
 		if i%shards != shard {
 			continue
 		}
+		if w.tooMany() {
+			break
+		}
 		w.opOpen(enc(p))
 		if w.cur == nil {
 			continue
@@ -530,7 +553,7 @@ func randIDs(r *prng.R, svc, prod, sfx string, n int) []string {
 
 func randomCases(w *world, r *prng.R, cases, nids int) {
 	caches := []string{"session", "none", "shared"}
-	for c := 0; c < cases; c++ {
+	for c := 0; c < cases && !w.tooMany(); c++ {
 		svc := svcPool[r.Intn(len(svcPool))]
 		prod := prodPool[r.Intn(len(prodPool))]
 		sfx := sfxPool[r.Intn(len(sfxPool))]
